@@ -6,6 +6,7 @@ import (
 )
 
 var vHarnesses = map[string]func(p []int){
+	"H_C07_workflow": func(p []int) { H_C07_workflow(p[0]) },
 	"H_C12_threshold":        func(p []int) { H_C12_threshold(p[0], p[1]) },
 	"H_C12_threshold_values": func(p []int) { H_C12_threshold_values() },
 	"H_C12_thresholdQ":       func(p []int) { H_C12_thresholdQ(p[0]) },
@@ -18,6 +19,7 @@ func TestVerifReplay(t *testing.T) {
 		t.Skip("no VERIF_REPLAY")
 	}
 	vLoad(path)
+	vScript = nil
 	h, ok := vHarnesses[vRec.Harness]
 	if !ok {
 		t.Fatalf("unknown harness %s", vRec.Harness)
